@@ -10,6 +10,8 @@ CONSTANTS
   FixNonRequest = FALSE
   FixLongWs = TRUE
   FarChoices = {FALSE}
+  HasValidator = TRUE
+  NilPointerSkipsValidation = TRUE
 INIT MBTInit
 NEXT MBTNext
 INVARIANTS TypeOK PShape POnePerEntry PResponses PTopLevel PInvocations PInFlight
